@@ -19,9 +19,10 @@ open Gen.Code Spec.Activation Spec.Consequent Py.Cons Py.Deg Lang
 theorem code_isLoaded (a c : Bool) : ∃ σ, Rule_is_loaded.run a c {} = .ok σ ∧ σ.ret = some (a && c) :=
   ⟨_, rfl, rfl⟩
 
-/-- `Rule.deactivate` = `Op.Activation.deactivate` (never raises; the two fields are reset, nothing else is written) -/
-theorem code_deactivate (r : Rule Rat) :
-    ∃ σ, Rule_deactivate.run {} = .ok σ ∧
+/-- `Rule.deactivate` = `Op.Activation.deactivate` (never raises; whatever the two fields held before - the state `σ₀` -
+    they are reset, nothing else is written) -/
+theorem code_deactivate (r : Rule Rat) (σ₀ : Rule_deactivate.S) :
+    ∃ σ, Rule_deactivate.run σ₀ = .ok σ ∧
       { r with actDegree := σ.self_activation_degree, triggered := σ.self_triggered } = deactivate r :=
   ⟨_, rfl, rfl⟩
 
@@ -87,10 +88,11 @@ theorem code_activateWith (c : DegCtx Rat) (hasTerms : String → Bool) (w : X R
     loaded raises `RuntimeError`; a loaded one with the conclusions `cs` (not empty: the consequent is loaded) sets
     `triggered` and adds the activated terms of the model; `calls` (the degrees `consequent.modify` was called with)
     are the contributions `Op.Activation.trigger` lists. -/
-theorem code_trigger (san : X Rat → X Rat) (impl : String) (enabled : Bool) (d : X Rat) :
-    (∀ ps : List Py.Cons.Proposition, Rule_trigger.run san impl false enabled d ps {} = .error .runtime) ∧
+theorem code_trigger (san : X Rat → X Rat) (impl : String) (enabled : Bool) (d : X Rat) (triggered₀ : Bool) :
+    (∀ ps : List Py.Cons.Proposition,
+      Rule_trigger.run san impl false enabled d ps { self_triggered := triggered₀ } = .error .runtime) ∧
     (∀ cs : List (Concl (X Rat)), cs ≠ [] →
-      ∃ σ, Rule_trigger.run san impl true enabled d (cs.map ofConcl) {} = .ok σ ∧
+      ∃ σ, Rule_trigger.run san impl true enabled d (cs.map ofConcl) { self_triggered := triggered₀ } = .ok σ ∧
         (σ.self_triggered, σ.out) = Op.Consequent.trigger san (X.lt (.fin 0)) enabled d impl cs ∧
         σ.self_activation_degree = d ∧
         ∀ (i : Nat) (r : Rule Rat), r.enabled = enabled → r.actDegree = d →
